@@ -59,6 +59,10 @@ class Made:
   def __init__(self, key, serial):
     self.key, self.serial = key, serial
 
+  def __len__(self):
+    # an (initially) empty container: a singleton may well be falsy
+    return 0
+
 
 def _mk_probe(i):
   def probe(a='d', b=None):
@@ -149,8 +153,7 @@ def check_threads(case):
   gin.parse_config(CONFIG)
   del CTOR_LOG[:]
   tape = case['schedule']
-  rng = random.Random(tape.get('s') or 1)
-  choices = list(tape.get('t', [])) + [rng.randrange(4) for _ in range(tape.get('n', 0))]
+  choices = sched.expand_schedule(tape)
   import os  # pylint: disable=g-import-not-at-top
   s = sched.Scheduler(choices, [os.path.dirname(gin.__file__)],
                       watch=('singleton_value', '_config_str', 'gin_wrapper'))
@@ -335,7 +338,7 @@ def _threads_case(draw):
   n = draw(st.sampled_from([2, 2, 3, 4]))
   programs = [draw(st.lists(_op, min_size=1, max_size=5)) for _ in range(n)]
   schedule = {'t': draw(st.lists(st.integers(0, 3), max_size=40)),
-              's': draw(st.integers(1, 2**31)), 'n': draw(st.sampled_from([0, 100, 300, 560]))}
+              's': draw(st.integers(1, 2**31)), 'n': draw(st.sampled_from([0, 100, 300, 560, 1500])), 'burst': draw(st.booleans())}
   return {'kind': 'threads', 'programs': programs, 'schedule': schedule}
 
 
@@ -358,7 +361,7 @@ def _record_growth_case(draw):
   if draw(st.booleans()):
     programs.append([['read'], ['call', i, sc, s2]])
   schedule = {'t': draw(st.lists(st.integers(0, 3), max_size=60)),
-              's': draw(st.integers(1, 2**31)), 'n': draw(st.sampled_from([300, 560]))}
+              's': draw(st.integers(1, 2**31)), 'n': draw(st.sampled_from([300, 560, 1500])), 'burst': draw(st.booleans())}
   return {'kind': 'threads', 'programs': programs, 'schedule': schedule}
 
 
